@@ -18,7 +18,9 @@ YEARS = [100, 999, 1000, 1900, 1999, 2000, 2003, 2024, 2068, 9999]
 EARLY_YEARS = [1, 31, 32, 99]
 MDS = [(1, 1), (1, 31), (2, 28), (2, 29), (3, 1), (5, 6), (9, 25), (10, 10), (11, 30), (12, 5), (12, 12), (12, 31)]
 TIMES = [(0, 0, 0, 0), (0, 0, 0, 1), (12, 0, 0, 0), (12, 30, 59, 999999), (23, 59, 59, 500000), (1, 2, 3, 4000),
-         (11, 59, 0, 0), (13, 0, 1, 100), (10, 36, 28, 120000)]
+         (11, 59, 0, 0), (13, 0, 1, 100), (10, 36, 28, 120000),
+         # microsecond values that 1e6 * float('0.xxxxxx') truncates one too low
+         (10, 36, 0, 249), (7, 8, 9, 251), (22, 1, 59, 493)]
 DEFAULT = D.datetime(1987, 7, 17)
 TZENVS = [None, 'Europe/London', 'America/New_York', 'UTC0']
 
